@@ -974,7 +974,8 @@ impl Scenario for ArtefactMedium {
                     }
                 }
                 4 => {
-                    let n = rng.range(1, 40) as usize;
+                    // rarely the artefact grows past the 16-bit boundary
+                    let n = if rng.chance(1, 60) { *rng.pick(&[65_535usize, 65_536, 70_000]) } else { rng.range(1, 40) as usize };
                     json!({"f": "extend", "junk": hx(&rng.bytes(n))})
                 }
                 5 => {
